@@ -82,6 +82,14 @@ func Generate(t *core.Tape, opt core.RunOpt) *Case {
 			}
 			bounds = append(bounds, op.Start, op.End)
 		}
+		if op.Kind == "add" && op.Start < 1 {
+			// position 0 is token.NoPos: no suppression range starts there (the quantifier has
+			// ranges inside 1..n; only QUERIES go down to 0). A derived bound must not either.
+			op.Start = 1
+			if op.End < 1 {
+				op.End = 1
+			}
+		}
 		c.Ops = append(c.Ops, op)
 	}
 	queriesFor := func(k int) []Query {
